@@ -467,7 +467,7 @@ theorem count_filter_one (l : List Inst) (p : Inst → Bool) (hn : (l.map (·.id
     rcases List.mem_cons.mp hi with rfl | hi'
     · have hz : ((xs.filter p).map (·.id)).count i.id = 0 :=
         count_filter_zero xs p i.id (fun j hj hid => absurd (List.mem_map.mpr ⟨j, hj, hid⟩) hn.1)
-      simp [List.filter_cons, hp, hz]
+      simp [hp, hz]
     · have hne : x.id ≠ i.id := fun e => hn.1 (e ▸ List.mem_map.mpr ⟨i, hi', rfl⟩)
       simp only [List.filter_cons]
       split
